@@ -181,3 +181,12 @@ Theorem C06_accepted_cumulative : forall sh nvdim ax h vals obs i,
       + fsum QcOps (firstn (nth ax i 0%nat) (line (sh ++ [nvdim]) (arr sh nvdim vals) ax i))) * qc h)%Qc.
 Proof. exact accepted_cumulative. Qed.
 Print Assumptions C06_accepted_cumulative.
+(* transfer: every entry of the observed directional integral is the sum along that axis times the cell length *)
+Theorem C06_accepted_directional : forall sh nvdim ax h vals obs i,
+  check_C06 (CIntDir sh nvdim ax h vals obs) = true ->
+  inb (remove_nth ax sh ++ [nvdim]) i = true ->
+  nth (ravel (remove_nth ax sh ++ [nvdim]) i) (qcl obs) 0%Qc
+  = (fsum QcOps (map (fun j => arr sh nvdim vals (insert_nth ax j i))
+                     (iota 0 (nth ax (sh ++ [nvdim]) 0%nat))) * qc h)%Qc.
+Proof. exact accepted_directional. Qed.
+Print Assumptions C06_accepted_directional.
